@@ -13,6 +13,9 @@ from .persistord import check_atomic_replace
 from .core.symexpr import expr, show, strip_refs
 
 RULES = {
+    "C09.4": "a persisted position means the same entries after the restart (= C06.3): recovery re-creates each block from one unit, and the loop that walks the entries of a unit "
+             "leaves it when its read offset reaches DEFAULT_BLOCK_SIZE (strictly: `>=`). A scan that runs on behind an exactly full unit books the next unit's entries into this "
+             "block as well; a consumer whose persisted position lies in it gets them twice",
     "C09.1a": "should_persist returns true on every path when the consistency is StrictlyAtOnce (its sub-CFG is evaluated for force in {true,false})",
     "C09.1b": "persist-before-return in read_next (only-allowed-bypass): from every checkpoint-guarded cursor commit, the paths to `return Ok(Some(entry))` reach WalIndex::set; the only "
               "branches that may bypass it are: should_persist returned false (or the Option carrying its verdict is None), checkpoint is false, or the index lock is poisoned; the "
@@ -1145,6 +1148,8 @@ def run(ctx):
     check_position_translation(ctx, facts)
     check_batch_persist(ctx, facts)
     check_index(ctx, facts)
+    from .c06 import check_entry_scan_bound
+    check_entry_scan_bound(ctx, facts, rid="C09.4")
     ctx.assume("NOT decided: the provisional `TAIL_FLAG|id, 0` persist before the tail read, tail block ids versus recovery's synthetic ids (value-level), the AtLeastOnce redelivery bound")
     ctx.assume("discarded results of WalIndex::set and a poisoned index lock silently skip persistence: I/O-failure behaviour outside this property's crash quantifier (recorded, not armed)")
     return {
